@@ -10,6 +10,8 @@ order; the theorems below say when the order cannot matter:
   is independent of the order of every per-path type table as long as the objects it reaches carry
   a string `__typename` (`TypedAt`); without that the order decides
   (`C13_clean_untyped_order_dependent`, lifting `C13_scrub_no_typename_order_dependent`);
+* `C13_tum_order_irrelevant` — the type-URL map ranged over in another order answers `Get` /
+  `GetTypeIsImplementsNode` alike and lists the same URLs, in another order;
 * `C13_flat_mutation_calls_order` (+ `_fam`, `_subrequests`) — for the flat mutation family the
   downstream calls depend on the `GetURLs()` order up to permutation only, and every service
   receives exactly the same list of sub-requests;
@@ -71,15 +73,19 @@ example : (clean C13Order.Example.types ["pets"] C13Order.Example.payload).1
 
 /-- **Without `__typename` the order of the type table decides — for the recursive scrubber too**
     (the witness `C13_scrub_no_typename_order_dependent` below an object): the hypothesis
-    `TypedAt` of `C13_clean_type_order_irrelevant` cannot be dropped. Reachable in the Go code
-    when a path has two types and the helper `__typename` is missing from the payload; the
-    run-time check looks for it. -/
+    `TypedAt` of `C13_clean_type_order_irrelevant` cannot be dropped. The instance is the shape of
+    the open finding `C13-node-root-scrub-order`: at the path `node` the sanitiser registers `id`
+    and `__typename` for the fragment's own type and `__typename` alone for the other possible
+    types, the payload under `node` carries no `__typename`; whichever type comes first decides —
+    the helper `id` is removed in one order and stays in the other. -/
 theorem C13_clean_untyped_order_dependent :
-    (clean [("A", ["id"]), ("B", ["x"])] ["o"] [("o", .obj [("id", .str "1"), ("x", .num "2")])]).1
-      = [("o", .obj [("x", .num "2")])] ∧
-    (clean [("B", ["x"]), ("A", ["id"])] ["o"] [("o", .obj [("id", .str "1"), ("x", .num "2")])]).1
-      = [("o", .obj [("id", .str "1")])] ∧
-    TypedAt ["o"] [("o", .obj [("id", .str "1"), ("x", .num "2")])] = false := by
+    (clean [("N1", ["id", "__typename"]), ("N0", ["__typename"])] ["node"]
+        [("node", .obj [("id", .str "N1_1"), ("f", .str "x")])]).1
+      = [("node", .obj [("f", .str "x")])] ∧
+    (clean [("N0", ["__typename"]), ("N1", ["id", "__typename"])] ["node"]
+        [("node", .obj [("id", .str "N1_1"), ("f", .str "x")])]).1
+      = [("node", .obj [("id", .str "N1_1"), ("f", .str "x")])] ∧
+    TypedAt ["node"] [("node", .obj [("id", .str "N1_1"), ("f", .str "x")])] = false := by
   refine ⟨?_, ?_, by decide⟩ <;> simp [clean, cleanHere, J.lookup, J.eraseKey, J.setKey]
 
 /-- **`ScrubFields.Clean` over a whole table does not depend on the order of any of its type
@@ -127,20 +133,19 @@ theorem C13_flat_mutation_calls_order {c c' : PCtx} (ms : List Mut.MSpec)
     (Mut.callsOf c' ms).Perm (Mut.callsOf c ms) :=
   callsOf_perm hschema hkind hname hurls ms
 
-/-- two gateway instances built from the same service schemas: same merged schema, same
-    operation, the same type-URL map as a MAP (`Get`, `GetTypeIsImplementsNode` agree) — only the
-    iteration order of `GetURLs()` may differ -/
-structure C13Order.SameTables (c c' : PCtx) : Prop where
-  schema : c'.schema = c.schema
-  opKind : c'.opKind = c.opKind
-  opName : c'.opName = c.opName
-  get : ∀ t f, c'.tum.get? t f = c.tum.get? t f
-  isNode : ∀ t, c'.tum.isNode? t = c.tum.isNode? t
-  urls : c'.tum.urls.Perm c.tum.urls
+/-- **Ranging over the type-URL map in another order changes nothing but the order of
+    `GetURLs()`.** If `c'.tum` is the Go map `c.tum` in another iteration order (`TumReorder`: the
+    types permuted, each type's field table permuted; type names and per-type field names are map
+    keys, hence distinct) and the two planning contexts have the same merged schema and operation,
+    then they are `SameTables`: `Get` and `GetTypeIsImplementsNode` answer alike for EVERY type and
+    field, and the URL lists are permutations of each other. -/
+theorem C13_tum_order_irrelevant {c c' : PCtx} (hschema : c'.schema = c.schema) (hkind : c'.opKind = c.opKind)
+    (hname : c'.opName = c.opName) (h : TumReorder c.tum c'.tum) : SameTables c c' :=
+  sameTables_of_reorder hschema hkind hname h
 
 /-- membership in the family does not depend on the instance -/
 theorem C13_flat_mutation_fam {c c' : PCtx} {ms : List Mut.MSpec} (h : Mut.Fam c ms)
-    (hsame : C13Order.SameTables c c') : Mut.Fam c' ms :=
+    (hsame : SameTables c c') : Mut.Fam c' ms :=
   fam_transfer h hsame.schema hsame.opKind hsame.get
 
 /-- **Every service receives the same sub-requests on every gateway instance — end to end.** For
@@ -150,7 +155,7 @@ theorem C13_flat_mutation_fam {c c' : PCtx} {ms : List Mut.MSpec} (h : Mut.Fam c
     each other (the same MULTISET of (URL, batch) pairs), and — the URLs of the calls being
     pairwise different — for every URL `u` the list of calls made to `u` is literally the same. -/
 theorem C13_flat_mutation_subrequests {c c' : PCtx} {ms : List Mut.MSpec} (h : Mut.Fam c ms)
-    (hsame : C13Order.SameTables c c') (down down' : Exec.Downstream)
+    (hsame : SameTables c c') (down down' : Exec.Downstream)
     (hdown : ∀ url batch, ∃ resps, down url batch = .ok resps ∧ resps.length = batch.length)
     (hdown' : ∀ url batch, ∃ resps, down' url batch = .ok resps ∧ resps.length = batch.length) :
     ∃ d d' calls calls',
@@ -164,27 +169,19 @@ theorem C13_flat_mutation_subrequests {c c' : PCtx} {ms : List Mut.MSpec} (h : M
   exact ⟨d, d', _, _, hg, hg', hp, per_service_eq hp (Mut.callsOf_shape c ms).2⟩
 
 namespace C13Order.Example
-/-- the routing table of `Mut.Example` with its two types in the other order: `GetURLs()` yields
-    `[A, B]` instead of `[B, A]` -/
-def tum' : Tum := [("Mutation", ⟨[("m1", "A"), ("m2", "B"), ("m3", "A")], false⟩), ("Query", ⟨[("q", "B")], false⟩)]
+/-- the routing table of `Mut.Example` with its two types in the other order and the fields of
+    `Mutation` rotated: `GetURLs()` yields `[A, B]` instead of `[B, A]` -/
+def tum' : Tum := [("Mutation", ⟨[("m3", "A"), ("m1", "A"), ("m2", "B")], false⟩), ("Query", ⟨[("q", "B")], false⟩)]
 def ctx' : PCtx := ⟨Mut.Example.merged, tum', .mutation, ""⟩
 
-theorem props_agree (t : String) : Tum.props? tum' t = Tum.props? Mut.Example.tum t := by
-  by_cases hq : t = "Query"
-  · subst hq; rfl
-  · by_cases hm : t = "Mutation"
-    · subst hm; rfl
-    · have h1 : ("Query" == t) = false := by simpa using fun e => hq e.symm
-      have h2 : ("Mutation" == t) = false := by simpa using fun e => hm e.symm
-      simp [Tum.props?, tum', Mut.Example.tum, List.find?, h1, h2]
+/-- `tum'` is the map `Mut.Example.tum` in another iteration order -/
+theorem reorder : TumReorder Mut.Example.tum tum' where
+  mid := ⟨[("Mutation", ⟨[("m1", "A"), ("m2", "B"), ("m3", "A")], false⟩), ("Query", ⟨[("q", "B")], false⟩)],
+    by decide, .cons rfl (by decide) (.cons rfl (by decide) .nil)⟩
+  types := by decide
+  fields := by decide
 
-theorem sameTables : SameTables Mut.Example.ctx ctx' where
-  schema := rfl
-  opKind := rfl
-  opName := rfl
-  get := fun t f => by simp only [Tum.get?, ctx', Mut.Example.ctx, props_agree]
-  isNode := fun t => by simp only [Tum.isNode?, ctx', Mut.Example.ctx, props_agree]
-  urls := by decide
+theorem sameTables : SameTables Mut.Example.ctx ctx' := C13_tum_order_irrelevant rfl rfl rfl reorder
 end C13Order.Example
 
 /-- Non-vacuity: `mutation { m1 m2 m3 }` (owners `A B A`) on two instances whose `GetURLs()`
